@@ -349,6 +349,7 @@ def run(ctx):
         binary_sample(ctx, forest, vectors, model)
         action_totality(ctx, forest)
         known(ctx, forest)
+        printf_widths(ctx, forest)
     finally:
         forest.close()
 
@@ -396,6 +397,19 @@ def action_totality(ctx, forest):
         if code not in (0, 1):
             ctx.violation("find %s: %s" % (" ".join(args), code), {"property": "C11", "kind": "action-totality", "find_args": args, "outcome": str(code),
                                                                    "stderr": err.decode("utf-8", "replace")[:300]})
+
+
+def printf_widths(ctx, forest):
+    """a field width is honoured or refused, never a panic (the formatter's own width argument is a u16) and never an endless padding"""
+    for fmt, want_rc, want_len in (("%70000p", 0, 70000), ("%-65536p|", 0, 65537), ("%65535p", 0, 65535), ("%2147483648p", 1, 0),
+                                   ("%18446744073709551615p", 1, 0), ("%99999999999999999999999p", 1, 0)):
+        line = "find - %s %s" % (fw.hexs(forest.dir), xc.hexlist([b"sb", b"-maxdepth", b"0", b"-printf", fmt.encode()]))
+        code, out, err = wc.decode_find(xc.run_impl([line])[0])
+        ctx.count(("printf-width", fmt), True, "printf-width")
+        if code in ("panic", "runner-died") or (code == 0) != (want_rc == 0) or (want_rc == 0 and len(out) != want_len):
+            ctx.violation("find sb -maxdepth 0 -printf %s: exit %s, %d bytes of output; expected exit %s and %d bytes" % (fmt, code, len(out), want_rc, want_len),
+                          {"property": "C11", "kind": "printf-width", "format": fmt, "exit": str(code), "output_bytes": len(out),
+                           "stderr": err.decode("utf-8", "replace")[:200]})
 
 
 def known(ctx, forest):
